@@ -15,7 +15,7 @@ CONSTANTS
   MaxApi = 0
   WithGC = TRUE
   AtomicPeers = FALSE
-  SignedWant = FALSE
+  SignedWant = TRUE
   Serialized = TRUE
   DirectAPI = FALSE
 CHECK_DEADLOCK FALSE
